@@ -36,7 +36,8 @@ RenewDecl(x, o) ==
   o.renewed => /\ MayRenew(x)                                   \* succeeds only for client-CA, v2, own key, (valid) proof
                /\ o.new.subj = o.old.subj /\ o.sameSubject     \* keeps the same subject ...
                /\ o.new.tok = o.old.tok /\ o.sameIdentity      \* ... and identity
-               /\ CertOk(o.new)
+               \* a certificate issued out of band by the client CA need not carry the key hash; keeping its subject keeps that
+               /\ o.new.key = o.new.pkey /\ (o.old.bound => o.new.bound) /\ o.new.ver = "v2" /\ o.new.chain
                /\ TokenUniqueToSubject(<<o.old, o.new>>)
 
 -------------------------------------------------------------------------------
